@@ -2,6 +2,7 @@
 import itertools
 from check import Property
 from props import pcutil as pu
+from props import nodeutil as nu
 
 ALG = "-|1:44160000,2:43fa0000,3:43c80000"
 LETTERS = {
@@ -50,24 +51,85 @@ class C05(Property):
             L = rng.choice([8, 20, 60, 200])
             sched = [rng.choice("AB")] + [rng.choice("ABxyXYuvrsab") for _ in range(L)]
             out.append(line_for(sched, rng))
+        # an attempt that gets no answer for the whole retry horizon (120 re-sends) must end with an error the
+        # node can act on; lengths around the horizon, with and without a late answer
+        for k in [1, 60, 118, 119, 120, 121, 122, 125, 130] + ([rng.randrange(100, 140) for _ in range(6)] if thorough else []):
+            out.append(line_for("A" + "a" * k, rng))
+            out.append(line_for("A" + "a" * k + "xy", rng))
+            out.append(line_for("Ax" + "b" * k, rng))
+            out.append(line_for("Axy" + "b" * k + "a" * 3, rng))
+        # node level: everything (or one direction) lost for L seconds, then reliable delivery for
+        # peer timeout + retry horizon + slack; connection and payload in both directions checked at the end
+        for L in ([0, 1, 5, 30, 100, 119, 121, 125, 130, 200, 300] if thorough else [0, 5, 119, 125, 200]):
+            for who in (0, 1, 2):
+                for dual in (False, True):
+                    if dual and not thorough and L not in (5, 125):
+                        continue
+                    s = nu.Scenario()
+                    s.node(1, mode="tun-router", claims=["0a000100/24"])
+                    s.node(2, mode="tun-router", claims=["0a000200/24"])
+                    s.add("R.1.2", "C.1.2")
+                    if dual:
+                        s.add("R.2.1", "C.2.1")
+                    for _ in range(L):
+                        s.t += 1
+                        s.add("T.%d" % s.t, "H.1", "H.2", "Z.%d" % who)
+                        if who != 0:
+                            s.add("A")
+                    for _ in range(300 + 120 + 30):
+                        s.t += 1
+                        s.add("T.%d" % s.t, "H.1", "H.2", "A")
+                    s.add("S.1", "S.2")
+                    s.add("P.1.%s" % nu.ipv4_packet(nu.node_ip(1), nu.node_ip(2), b"\x11"), "A", "O.2")
+                    s.add("P.2.%s" % nu.ipv4_packet(nu.node_ip(2), nu.node_ip(1), b"\x22"), "A", "O.1")
+                    out.append(s.line())
         return out
 
+    def model_line(self, line, impl_out):
+        return nu.model_line(line, impl_out) if line.startswith("node ") else line
+
+    def canon_impl(self, line, out):
+        return nu.canon_impl(out) if line.startswith("node ") else super().canon_impl(line, out)
+
     def nontrivial(self, line, impl_out):
+        if line.startswith("node "):
+            return True
         qs = [pu.parse_q(x) for x in impl_out.split() if x.startswith("q:")]
         return len(qs) >= 4 and qs[2]["core"] != "-" and qs[3]["core"] != "-"
 
     def tag(self, line, impl_out):
+        if line.startswith("node "):
+            return "node:loss"
         qs = [pu.parse_q(x) for x in impl_out.split() if x.startswith("q:")]
         if len(qs) < 4:
             return "hs:?"
         st = lambda q: "done" if q["core"] != "-" else "st" + q["init"].split("/")[0]
         return "hs:%s/%s->%s/%s" % (st(qs[0]), st(qs[1]), st(qs[2]), st(qs[3]))
 
-    def oracle(self, line, impl_out):
+    def oracle_node(self, line, impl_out):
         ops = line.split()[1:]
         outs = impl_out.split()
         if len(ops) != len(outs):
             return "driver returned %d results for %d ops" % (len(outs), len(ops))
+        if any(r.startswith("panic") for r in outs):
+            return "panic"
+        dumps = {int(o.split(".")[1]): nu.parse_dump(r) for o, r in zip(ops, outs) if o.startswith("S.")}
+        for me, other in ((1, 2), (2, 1)):
+            if other not in set(int(p[0]) for p in dumps[me]["peers_l"]):
+                return "delivery was reliable for peer timeout + retry horizon + 30 s but node %d is not connected to node %d" % (me, other)
+        w2, w1 = [r for o, r in zip(ops, outs) if o in ("O.2", "O.1")]
+        if w2 == "w-" or w1 == "w-":
+            return "connected but payload does not get through in both directions (%s, %s)" % (w2[:20], w1[:20])
+        return None
+
+    def oracle(self, line, impl_out):
+        if line.startswith("node "):
+            return self.oracle_node(line, impl_out)
+        ops = line.split()[1:]
+        outs = impl_out.split()
+        if len(ops) != len(outs):
+            return "driver returned %d results for %d ops" % (len(outs), len(ops))
+        timeout_family = max((len(run) for run in "".join(o[2] if o in ("E.1", "E.2") else " " for o in ops[2:]).split()), default=0) >= 110
         succ = {1: [], 2: []}
         for i, (o, r) in enumerate(zip(ops, outs)):
             if r.startswith("panic"):
@@ -95,8 +157,11 @@ class C05(Property):
             if outs[-3] != "Msg0:0a0b" or outs[-1] != "Msg0:0c0d":
                 return "both completed but a probe does not open at the other end (%s, %s)" % (outs[-3], outs[-1])
         # liveness once delivery is reliable: both complete, unless an object was closed for good
+        if "fatal" in outs and timeout_family:
+            # silence for the whole retry horizon: the attempt must have been given up, nothing else is required
+            return None
         if "fatal" in outs:
-            return None if False else "a handshake between two mutually trusting objects ended in a fatal error at op %d (%s)" % (outs.index("fatal"), ops[outs.index("fatal")])
+            return "a handshake between two mutually trusting objects ended in a fatal error at op %d (%s)" % (outs.index("fatal"), ops[outs.index("fatal")])
         if not (succ[1] and succ[2]):
             return "delivery became reliable but the handshake did not complete on both ends (%s / %s)" % (q1["init"], q2["init"])
         return None
